@@ -41,7 +41,7 @@ func (p *Prog) Facts(fn *ssa.Function) map[*ssa.BasicBlock][]Fact {
 		res[b] = inherited
 		for _, d := range b.Dominees() {
 			fs := inherited
-			if iff, ok := b.Instrs[len(b.Instrs)-1].(*ssa.If); ok && len(d.Preds) == 1 && d.Preds[0] == b {
+			if iff, ok := b.Instrs[len(b.Instrs)-1].(*ssa.If); ok && soleEntry(d, b) {
 				if b.Succs[0] == d && b.Succs[1] != d {
 					fs = append(append([]Fact{}, inherited...), Fact{iff.Cond, true})
 				} else if b.Succs[1] == d && b.Succs[0] != d {
@@ -142,4 +142,22 @@ func AtomStrings(as []Atom) []string {
 	}
 	sort.Strings(out)
 	return out
+}
+
+// soleEntry reports whether b is the only predecessor through which control
+// first enters d: every other predecessor is dominated by d (a back edge of a
+// loop headed by d). Branch conditions are immutable SSA values, so a fact
+// established on that edge keeps holding inside the loop.
+func soleEntry(d, b *ssa.BasicBlock) bool {
+	n := 0
+	for _, p := range d.Preds {
+		if p == b {
+			n++
+			continue
+		}
+		if !d.Dominates(p) {
+			return false
+		}
+	}
+	return n == 1
 }
